@@ -176,7 +176,7 @@ def native_check(c: Contract, values: dict) -> NativeResult:
             return NativeResult("fail", f"raised {type(e).__name__} although its condition does not hold", f"raises[{type(e).__name__}]")
         env1 = _env(fn, values, old)
         try:
-            for cl in c.ensures_raise:
+            for cl in c.raise_clauses(REG, type(e)):
                 if not _ev(cl, env1):
                     return NativeResult("fail", f"after {type(e).__name__}: {cl}", "ensures_raise")
         except Exception as e2:
